@@ -319,9 +319,18 @@ class Runner:
         out = []
         with impl.Server(conf=conf) as srv:
             self.srv = srv
+            self.dumps = []
             for ui, r in hist:
                 out.append(self.one(srv, ui, r))
-            self.final = dump_store(srv.folder, self.etags) if want_store else None
+                if want_store:
+                    self.dumps.append(dump_store(srv.folder, self.etags))
+            self.final = self.dumps[-1] if (want_store and self.dumps) else (dump_store(srv.folder, self.etags) if want_store else None)
+            self.verify_ok = None
+            if want_store:
+                try:
+                    self.verify_ok = bool(srv.application._storage.verify())
+                except Exception as e:  # noqa
+                    self.verify_ok = "raised %r" % (e,)
         return out
 
     def etag_value(self, srv, e, target):
